@@ -301,6 +301,11 @@ pub enum ROp {
     /// 6 cow(owned) iter
     ArrAll { a: usize, via: u8 },
     ArrSearch { a: usize, pick: usize, delta: i8 },
+    /// A fixed-size record type of the library itself (`ReadFixedSizeDep`), read from an
+    /// all-zero buffer of `declared size + extra` bytes: the declared size must be what the
+    /// specification says and exactly what a successful read consumes.
+    /// which: 0 ValueRecord(a), 1 PairValueRecord(a, b), 2 Class2Record(a, b), 3 Class1Record(n; a, b)
+    LibRecord { which: u8, a: u16, b: u16, n: u8, extra: u8 },
 }
 
 impl ROp {
@@ -327,6 +332,7 @@ impl ROp {
             ROp::ArrItem { .. } => "ArrItem",
             ROp::ArrAll { .. } => "ArrAll",
             ROp::ArrSearch { .. } => "ArrSearch",
+            ROp::LibRecord { .. } => "LibRecord",
         }
     }
 }
@@ -1068,6 +1074,63 @@ fn step<'w>(sim: &mut Sim<'w>, op: &ROp, cov: &mut BTreeSet<String>) -> Result<S
                 Err(e) => Err(format!("element read failed inside the declared window: {}", e)),
             }
         }
+        ROp::LibRecord { which, a, b, n, extra } => {
+            use allsorts::layout::{Class1Record, Class2Record, PairValueRecord, ValueFormat, ValueRecord};
+            let vf = |raw: u16| -> Result<ValueFormat, String> {
+                let bytes = raw.to_be_bytes();
+                ReadScope::new(&bytes).read::<ValueFormat>().map_err(|e| format!("ValueFormat: {:?}", e))
+            };
+            // OpenType: one 16-bit field per set bit of the low byte of the value format
+            let sz = |raw: u16| 2 * (raw & 0x00FF).count_ones() as usize;
+            let (fa, fb) = (vf(*a)?, vf(*b)?);
+            let n = usize::from(*n);
+            let model = match which {
+                0 => sz(*a),
+                1 => 2 + sz(*a) + sz(*b),
+                2 => sz(*a) + sz(*b),
+                _ => n * (sz(*a) + sz(*b)),
+            };
+            let buf = vec![0u8; model + usize::from(*extra)];
+            let scope = ReadScope::new(&buf);
+            let mut ctxt = scope.ctxt();
+            cov.insert(format!("LibRecord|{}|{}|{}", which, (*a & 0xFF).count_ones(), extra.min(&1)));
+            let (declared, res): (usize, Result<(), String>) = match which {
+                0 => (
+                    <ValueRecord as ReadFixedSizeDep>::size((scope, fa)),
+                    ctxt.read_dep::<ValueRecord>((scope, fa)).map(drop).map_err(|e| format!("{:?}", e)),
+                ),
+                1 => (
+                    <PairValueRecord as ReadFixedSizeDep>::size((scope, fa, fb)),
+                    ctxt.read_dep::<PairValueRecord>((scope, fa, fb)).map(drop).map_err(|e| format!("{:?}", e)),
+                ),
+                2 => (
+                    <Class2Record as ReadFixedSizeDep>::size((scope, fa, fb)),
+                    ctxt.read_dep::<Class2Record>((scope, fa, fb)).map(drop).map_err(|e| format!("{:?}", e)),
+                ),
+                _ => (
+                    <Class1Record as ReadFixedSizeDep>::size((scope, n, fa, fb)),
+                    ctxt.read_dep::<Class1Record>((scope, n, fa, fb)).map(drop).map_err(|e| format!("{:?}", e)),
+                ),
+            };
+            if declared != model {
+                return Err(format!(
+                    "library record {} with formats {:#06x}/{:#06x} declares {} bytes, the encoding has {}",
+                    which, a, b, declared, model
+                ));
+            }
+            let consumed = buf.len() - ctxt.scope().data().len();
+            match res {
+                Ok(()) if consumed != model => Err(format!(
+                    "library record {} with formats {:#06x}/{:#06x} consumed {} bytes, declared {}",
+                    which, a, b, consumed, model
+                )),
+                Ok(()) => Ok(format!("librecord {} {}", which, model)),
+                Err(e) => Err(format!(
+                    "library record {} with formats {:#06x}/{:#06x} failed ({}) although its {} declared bytes are available",
+                    which, a, b, e, model
+                )),
+            }
+        }
         ROp::ArrSearch { a, pick, delta } => {
             let k = pool!(sim.arrs, *a);
             let m = sim.arrs[k].1;
@@ -1300,7 +1363,7 @@ pub fn generate(seed: u64, run: u64, exact: bool) -> ReaderTrace {
         let ty = *rng.pick(ALL_TY);
         let rem = rng.usize_below(cut + 1);
         let any = rng.usize_below(64);
-        let op = match rng.below(30) {
+        let op = match rng.below(31) {
             0 => ROp::NewScope,
             1 => ROp::ReadBufScope { owned: rng.pct(50) },
             2 | 3 => ROp::ScopeOffset {
@@ -1384,10 +1447,17 @@ pub fn generate(seed: u64, run: u64, exact: bool) -> ReaderTrace {
                 a: any,
                 via: rng.below(7) as u8,
             },
-            _ => ROp::ArrSearch {
+            29 => ROp::ArrSearch {
                 a: any,
                 pick: any,
                 delta: *rng.pick(&[0i8, 0, 0, 1, -1, 100, -100]),
+            },
+            _ => ROp::LibRecord {
+                which: rng.below(4) as u8,
+                a: if rng.pct(50) { 1 << rng.below(8) } else { rng.below(256) as u16 },
+                b: if rng.pct(50) { 1 << rng.below(8) } else { rng.below(256) as u16 },
+                n: rng.below(5) as u8,
+                extra: *rng.pick(&[0u8, 0, 1, 7]),
             },
         };
         ops.push(op);
